@@ -479,15 +479,6 @@ def hinge_lemmas():
             VC('lemma/mid-point: v1 < v2  =>  v1 < (v1 + v2)/2 <= v2, so x <= v1 => x < mid and x >= v2 => x >= mid', '(declare-const v1 Real)(declare-const v2 Real)(declare-const x Real)\n'
                '(define-fun mid () Real (* 0.5 (+ v1 v2)))\n(assert (< v1 v2))\n(assert (not (and (< v1 mid) (<= mid v2) (=> (<= x v1) (< x mid)) (=> (>= x v2) (>= x mid)))))',
                about='the threshold stored by the sweeps separates exactly the left entries (values <= v1) from the right ones (values >= v2) under `value < threshold` (reals)', source=src),
-            # the same statement for the IEEE double operations the code executes (the sweeps prove the stored threshold bit-identical
-            # with fl(0.5 * fl(v1 + v2)), v1 < v2 the two consecutive sorted values; magnitudes below 2^1000, so that the sum does not overflow)
-            VC('lemma/mid-point IEEE: v1 < v2 finite, |v| <= 2^1000  =>  v1 < fl(0.5 * fl(v1 + v2)) <= v2',
-               '(declare-const v1 (_ FloatingPoint 11 53))(declare-const v2 (_ FloatingPoint 11 53))\n'
-               '(define-fun big () (_ FloatingPoint 11 53) (fp #b0 #b11111100111 #x0000000000000))\n'
-               '(define-fun mid () (_ FloatingPoint 11 53) (fp.mul RNE ((_ to_fp 11 53) RNE 0.5) (fp.add RNE v1 v2)))\n'
-               '(assert (and (fp.leq (fp.abs v1) big) (fp.leq (fp.abs v2) big) (fp.lt v1 v2)))\n(assert (not (and (fp.lt v1 mid) (fp.leq mid v2))))',
-               about='the mid-point threshold stored by the stump / hinge sweeps puts v1 on the left and v2 on the right of `value < threshold` in double arithmetic', source=src,
-               solvers=['z3-new', 'z3'], timeout=60),
             VC('lemma/canary: b == -t*w with a non-zero slope and an active sample is satisfiable', hdr + '(assert (not (= w 0.0)))(assert (< v t))',
                about='vacuity guard (must be sat)', source=src, expect='sat')]
 
@@ -583,7 +574,7 @@ def build(tier):
             'hinge: do_predict adds tables[0] * value + tables[1] to outputs row i iff the value is given and on the active side (left: value < threshold, right: value >= threshold), nothing otherwise and no other row is written; do_split assigns group 0 under the same condition (m_hinge one of the two enumerators); over the reals and with tables[1] == -threshold * tables[0] this is the MARS hinge on both sides (SMT lemmas)',
             'dtree do_split: the walk of any sample through the sibling pairs of m_nodes is a single path that starts at the root pair, follows at every visited pair the stump rule on the sample\'s own value of that pair\'s feature (value < threshold ? first : second child), ends at the first missing value without a group or at a leaf pair with group m_table + side, a row of m_tables; node / table indices in range; samples outside the argument are never assigned; depth 1 (root pair is a leaf pair): one visit, group m_table(root) + (value < threshold ? 0 : 1) = the stump rule',
             'dtree do_fit (structure only): nodes are stored in sibling pairs at even positions, both members of a pair carry the feature / threshold of the stump fitted for it and are both leaves or both inner nodes; a leaf pair gets the next two rows of m_tables, filled from rows 0 and 1 of that stump\'s tables in this order; an inner member\'s m_next is the later, in-range, even position of the pair fitted on its side (linked exactly when its queued cache is processed); members are replaced iff the returned score is not no_fit_score; depth 1: the stump\'s tables are rows 0 and 1 of m_tables -- this is the representation invariant dtree do_split / do_predict assume',
-            'threshold sweeps of the fits (stump, hinge; dtree nodes fit stumps): cache_t::clear turns every sample position with a given value into exactly one (value, sample) entry and one contribution to the total accumulator (hinge: with that value), a missing value into one contribution to the missing residual sum and nothing else, sorts the whole vector once and leaves the left accumulator empty; in the sweep a candidate is evaluated only between two DIFFERENT consecutive sorted values v1 < v2, the left accumulator then holds exactly the sorted entries before the cut (values <= v1) and total minus left exactly the others (values >= v2), once each; a stored candidate is one consistent candidate: the score of that evaluation, this feature, threshold 0.5 * (v1 + v2) of that cut (bit-identical), coefficients computed from the accumulators of that moment (stump: left -> row 0, right -> row 1; hinge: slope of the evaluated direction -> row 0, -threshold * row 0 -> row 1, m_hinge = that direction); over the reals that threshold separates the two sides under `value < threshold` (SMT lemma)',
+            'threshold sweeps of the fits (stump, hinge; dtree nodes fit stumps): cache_t::clear turns every sample position with a given value into exactly one (value, sample) entry and one contribution to the total accumulator (hinge: with that value), a missing value into one contribution to the missing residual sum and nothing else, sorts the whole vector once and leaves the left accumulator empty; in the sweep a candidate is evaluated only between two DIFFERENT consecutive sorted values v1 < v2, the left accumulator then holds exactly the sorted entries before the cut (values <= v1) and total minus left exactly the others (values >= v2), once each; a stored candidate is one consistent candidate: the score of that evaluation, this feature, a threshold with v1 < threshold <= v2 for that cut (so that `value < threshold` reproduces the partition the score was computed for; REFUTED on the current library, see the finding) which is 0.5 * (v1 + v2) bit-identically whenever that mid-point separates, coefficients computed from the accumulators of that moment (stump: left -> row 0, right -> row 1; hinge: slope of the evaluated direction -> row 0, -threshold * row 0 -> row 1, m_hinge = that direction); over the reals that threshold separates the two sides under `value < threshold` (SMT lemma)',
             'affine fit callback: every sample position is accumulated exactly once, a given value in the affine bin with its own value, a missing one in the missed bin (bin constants read from the source); the score is evaluated once, after all positions; a store is that candidate (score, feature, w() -> row 0, b() -> row 1)',
             'do_fit of stump / hinge / affine around the callback: the callback (capturing the caches) is handed to select_iterator_t::loop with the given samples once; the learner takes every field of the cache min_reduce returns (feature, tables, threshold, hinge direction) exactly when its score is not no_fit_score, and returns that score',
             'wlearner::make_score (index discipline only): rss is clamped below by 1e3 * epsilon and passed with (k, n) unchanged and in order to exactly the formula the criterion names (AIC / AICc / BIC uninterpreted), the plain criterion returns the clamped rss',
@@ -592,7 +583,7 @@ def build(tier):
         'not_decided': [
             'minimum RSS over the hypothesis class (all do_fit functions, accumulators, values of the criteria): optimisation over float moment sums; accumulator_t (moment sums, cluster()) is not under contract',
             'termination of the breadth-first walks of dtree do_split / do_fit; the scores, samples and stopping rule of dtree do_fit (stump fits are opaque)',
-            'IEEE rounding of the mid-point: for two ADJACENT doubles v1 < v2 the stored 0.5 * (v1 + v2) can round onto v1 or v2 (the separation lemma is over the reals); the count in missing_cnt (a float sum of 1.0); the values of scores / coefficients (uninterpreted)',
+            'the count in missing_cnt (a float sum of 1.0); the values of scores / coefficients (uninterpreted)',
             'numeric value of the scaled coefficients (Eigen *= is recorded, not computed); sums of merged / predicted coefficients are exact only as uninterpreted IEEE terms',
             'nano::find for multi-label values (detail::hash over the row) stays an assumed contract',
             'native replay only for the dtree groups() finding (replay/C10_replay.cpp); other counterexamples would be (value, threshold, index) tuples',
@@ -641,13 +632,11 @@ def replay(rp):
     scenarios = None
     if rp['target'] == 'dtree_do_split' and any(i.endswith('dtree_do_split.postcondition.7') for i in ids):
         scenarios = [[40, 3], [12, 2]]
-    elif rp['target'] in ('stump_fit_sweep', 'hinge_fit_sweep') and any('nv_candidate.assertion' in i or 'loop_invariant_step' in i for i in ids):
+    elif rp['target'] in ('stump_fit_sweep', 'hinge_fit_sweep') and any('nv_candidate.assertion' in i or 'loop_invariant_step' in i or 'postcondition' in i for i in ids):
         # a cut that is not between two different consecutive sorted values / an inconsistent stored candidate: replayed on a
         # feature with tied values (real learner, RSS criterion; the clause is evaluated on its threshold and predictions)
-        scenarios = [['ties', rp['target'].split('_')[0]]]
-    elif rp['target'] == 'lemma' and any('mid-point IEEE' in i for i in ids):
-        # consecutive doubles 1, 1 + ulp, 1 + 2 ulp as feature values: the mid-point of the first two rounds onto 1
-        scenarios = [['ties', 'stump', 'adjacent']]
+        # (the uninterpreted mid-point not separating v1 from v2 is real for IEEE doubles: consecutive doubles 1, 1 + ulp, 1 + 2 ulp)
+        scenarios = [['ties', rp['target'].split('_')[0]], ['ties', rp['target'].split('_')[0], 'adjacent']]
     if scenarios is None:
         out['note'] = 'no native driver for this obligation: the replay file carries the verifier output only'
         return out
